@@ -1,4 +1,5 @@
 """E2 support: canonical full-state fingerprints of real library objects and of all library module / class level state."""
+import enum
 import struct
 import sys
 import types
@@ -64,7 +65,7 @@ def global_fp(display=True):
                 if getattr(v, '__module__', '').startswith('py_ballisticcalc') and v.__module__ == m.__name__:
                     attrs = []
                     for a, b in sorted(vars(v).items()):
-                        if a.startswith('__') or callable(b) or isinstance(b, (property, classmethod, staticmethod, types.MemberDescriptorType,
+                        if a.startswith('__') or (callable(b) and not isinstance(b, enum.Enum)) or isinstance(b, (property, classmethod, staticmethod, types.MemberDescriptorType,
                                                                                   types.GetSetDescriptorType)):
                             continue
                         attrs.append((a, fp(b, display)))
@@ -79,3 +80,221 @@ def global_fp(display=True):
 def digest(x):
     import hashlib
     return hashlib.sha256(repr(x).encode()).hexdigest()[:20]
+
+
+# ---- pristine module state: captured right after import, restored before every case / schedule execution -------------------------------
+# A stateless explorer replays executions in one long-lived process; module- or class-level state that a (changed) library keeps between
+# calls would make the outcome of an execution depend on the executions before it. Restoring the state the library had right after import
+# makes every execution start from the same world, so a failing schedule or history fails again when it is replayed.
+_PRISTINE = None
+
+
+def _is_lib_instance(obj):
+    import enum
+    t = type(obj)
+    return (getattr(t, '__module__', '') or '').startswith('py_ballisticcalc') and not isinstance(obj, (enum.Enum, type))
+
+
+def _memento(obj, seen, depth=0):
+    if id(obj) in seen or depth > 6:
+        return ('ref', obj)
+    t = type(obj)
+    if t is list:
+        seen = seen | {id(obj)}
+        return ('list', obj, [_memento(x, seen, depth + 1) for x in obj], _plain_copy(obj))
+    if t is dict:
+        seen = seen | {id(obj)}
+        return ('dict', obj, [(k, _memento(v, seen, depth + 1)) for k, v in obj.items()], _plain_copy(obj))
+    if t is set:
+        return ('set', obj, set(obj))
+    if _is_lib_instance(obj):
+        seen = seen | {id(obj)}
+        d = {}
+        if hasattr(obj, '__dict__'):
+            d.update(vars(obj))
+        for c in t.__mro__:
+            for s in getattr(c, '__slots__', ()):
+                if hasattr(obj, s):
+                    d[s] = getattr(obj, s)
+        return ('obj', obj, [(k, _memento(v, seen, depth + 1)) for k, v in d.items()], hasattr(obj, '__dict__'))
+    return ('ref', obj)
+
+
+def _is_plain(obj, depth=0):
+    t = type(obj)
+    if t in (float, int, str, bool, bytes) or obj is None:
+        return True
+    if depth > 4:
+        return False
+    if t in (list, tuple):
+        return all(_is_plain(x, depth + 1) for x in obj)
+    if t is dict:
+        return all(type(k) in (str, int, float) and _is_plain(v, depth + 1) for k, v in obj.items())
+    return False
+
+
+def _plain_copy(obj):
+    """containers of plain data only (the drag tables): a deep copy that is compared with == first (one C-level comparison instead of a walk)"""
+    import copy
+    return copy.deepcopy(obj) if _USE_PLAIN and len(obj) > 8 and _is_plain(obj) else None
+
+
+_USE_PLAIN = True
+
+
+class _Dirty(Exception):
+    pass
+
+
+def _restore(m, dry=False):
+    kind, obj = m[0], m[1]
+    if kind in ('list', 'dict') and m[3] is not None and obj == m[3]:
+        return obj
+    if kind == 'list':
+        kids = m[2]
+        if len(obj) != len(kids) or any(a is not k[1] for a, k in zip(obj, kids)):
+            if dry:
+                raise _Dirty()
+            obj[:] = [k[1] for k in kids]
+        for k in kids:
+            _restore(k, dry)
+    elif kind == 'dict':
+        kids = m[2]
+        if len(obj) != len(kids) or any((k not in obj) or (obj[k] is not c[1]) for k, c in kids):
+            if dry:
+                raise _Dirty()
+            obj.clear()
+            obj.update((k, c[1]) for k, c in kids)
+        for _, c in kids:
+            _restore(c, dry)
+    elif kind == 'set':
+        if obj != m[2]:
+            if dry:
+                raise _Dirty()
+            obj.clear()
+            obj.update(m[2])
+    elif kind == 'obj':
+        kids = m[2]
+        names = {k for k, _ in kids}
+        if m[3]:
+            for k in [k for k in vars(obj) if k not in names]:
+                if dry:
+                    raise _Dirty()
+                try:
+                    delattr(obj, k)
+                except Exception:   # noqa
+                    pass
+        for k, c in kids:
+            try:
+                if getattr(obj, k, _MISSING) is not c[1]:
+                    if dry:
+                        raise _Dirty()
+                    object.__setattr__(obj, k, c[1])
+            except _Dirty:
+                raise
+            except Exception:   # noqa  (read-only attribute: nothing we could have changed either)
+                pass
+            _restore(c, dry)
+    return obj
+
+
+_MISSING = object()
+
+
+def _data_names(ns, modname=None):
+    for k, v in list(ns.items()):
+        if k.startswith('__'):
+            continue
+        if isinstance(v, (types.ModuleType, types.FunctionType, types.BuiltinFunctionType, type)) or (callable(v) and not isinstance(v, enum.Enum)):
+            continue
+        if isinstance(v, (property, classmethod, staticmethod, types.MemberDescriptorType, types.GetSetDescriptorType)):
+            continue
+        if type(v).__module__ in ('typing', 'typing_extensions', 'logging', 're'):
+            continue
+        yield k, v
+
+
+def capture():
+    """remember every data global / class attribute of the library (object identity and, for mutable containers and library instances, content)"""
+    snap = []
+    top = set()
+
+    def _memento_once(v):
+        if id(v) in top:
+            return ('ref', v)       # the same object under a second name (re-exported tables): content captured once
+        if type(v) in (list, dict, set) or _is_lib_instance(v):
+            top.add(id(v))
+        return _memento(v, frozenset())
+    for m in library_modules():
+        names = {k: _memento_once(v) for k, v in _data_names(vars(m))}
+        snap.append((m, names))
+        for k, v in list(vars(m).items()):
+            if isinstance(v, type) and getattr(v, '__module__', '') == m.__name__:
+                snap.append((v, {a: _memento_once(b) for a, b in _data_names(vars(v))}))
+    return snap
+
+
+def capture_pristine():
+    global _PRISTINE
+    _PRISTINE = capture()
+
+
+def restore_pristine():
+    if _PRISTINE is not None:
+        restore(_PRISTINE)
+
+
+class pristine:
+    """with pristine(): ... runs the block in the library state as imported and puts the current state back afterwards (reference computations
+    in the middle of a live history)"""
+    def __enter__(self):
+        global _USE_PLAIN
+        if is_pristine():
+            self.live = None        # the usual case (a library without module-level state): nothing to save
+            return
+        _USE_PLAIN = False          # a one-off capture: walking is cheaper than deep-copying
+        try:
+            self.live = capture()
+        finally:
+            _USE_PLAIN = True
+        restore_pristine()
+
+    def __exit__(self, *a):
+        if self.live is None:
+            restore_pristine()
+        else:
+            restore(self.live)
+        return False
+
+
+def is_pristine():
+    if _PRISTINE is None:
+        return True
+    try:
+        restore(_PRISTINE, dry=True)
+        return True
+    except _Dirty:
+        return False
+
+
+def restore(snap, dry=False):
+    for owner, names in snap:
+        ns = vars(owner)
+        # data names the library added since import (lazily created caches): remove them
+        for k, _ in list(_data_names(ns)):
+            if k not in names:
+                if dry:
+                    raise _Dirty()
+                try:
+                    delattr(owner, k)
+                except Exception:   # noqa
+                    pass
+        for k, m in names.items():
+            if ns.get(k, _MISSING) is not m[1]:
+                if dry:
+                    raise _Dirty()
+                try:
+                    setattr(owner, k, m[1])
+                except Exception:   # noqa
+                    pass
+            _restore(m, dry)
